@@ -302,7 +302,7 @@ func (e *ParallelExplorer) result(it stackItem, raw []byte, crash string, hang b
 		e.mu.Unlock()
 	}()
 	if res.Diverged != "" {
-		HarnessError("nondeterministic replay of prefix %v: %s", job.Prefix, res.Diverged)
+		HarnessError("nondeterministic replay of scenario %s arg %s prefix %v: %s", job.Scenario, job.Arg, job.Prefix, res.Diverged)
 	}
 	e.Stats.Executions++
 	e.Stats.Transitions += int64(len(res.Trace.Choices))
